@@ -33,7 +33,7 @@ def replay_harness(ctx, casefile, toks):
 def parse(t):
     """-> (header dict, [op dict]) ; raises on malformed"""
     U = t[3]
-    hd = {"hosts": {0: "mocknet", 1: "tcp+noise+yamux"}.get(t[1], t[1]), "rcmgr": bool(t[2] & 1), "U": U,
+    hd = {"hosts": {0: "mocknet", 1: "tcp+noise+yamux", 2: "tcp+noise+yamux via circuit-v2 relay"}.get(t[1], t[1]), "rcmgr": bool(t[2] & 1), "limited_conn": bool(t[2] & 2), "U": U,
           "limD": t[4:4 + U], "limL": t[4 + U:4 + 2 * U]}
     i = 4 + 2 * U
     ops = []
@@ -62,7 +62,11 @@ def parse(t):
         elif c == 5:
             n = t[i + 1]
             i += 2
-            reqs = [lst() for _ in range(n)]
+            reqs, modes = [], []
+            for _ in range(n):
+                modes.append(t[i])
+                i += 1
+                reqs.append(lst())
             res = []
             for _ in range(n):
                 res.append(dict(zip(("res", "dp", "use", "h", "lp", "ninv", "hreg", "hlp"), t[i:i + 8])))
@@ -73,7 +77,7 @@ def parse(t):
             kn = lst()
             sc = t[i:i + 2 * U]
             i += 2 * U
-            ops.append({"op": "Open", "reqs": reqs, "results": res, "unattributed": un, "know": kn,
+            ops.append({"op": "Open", "reqs": reqs, "allow_limited": modes, "results": res, "unattributed": un, "know": kn,
                         "outD": sc[:U], "inL": sc[U:]})
         elif c == 6:
             ops.append({"op": "Close", "slot": t[i + 1], "how": t[i + 2], "outD": t[i + 3:i + 3 + U],
@@ -132,8 +136,8 @@ def key(tag, toks, d):
                 know = p["know"]
         if o["op"] == "Open":
             obs = [[r[k] for k in ("res", "dp", "use", "lp", "ninv", "hlp")] for r in o["results"]]
-            return "C07:open:rcmgr=%d:table=%s:know=%s:reqs=%s:obs=%s:un=%d" % (
-                hd["rcmgr"], list(tab.items()), know, o["reqs"], obs, len(o["unattributed"]))
+            return "C07:open:rcmgr=%d:limited=%d:table=%s:know=%s:reqs=%s:allow=%s:obs=%s:un=%d" % (
+                hd["rcmgr"], hd["limited_conn"], list(tab.items()), know, o["reqs"], o["allow_limited"], obs, len(o["unattributed"]))
         return "C07:%s:%s" % (o["op"], d)
     except Exception:
         return "C07:%s:%s" % (tag, " ".join(map(str, toks[:120])))
